@@ -454,7 +454,7 @@ class DHEat:
                 try:
                     buf = s.recv(8)
                     # out.d("Banner: %r" % buf, write_now=True)
-                except (ConnectionRefusedError, ConnectionResetError, BrokenPipeError, TimeoutError):
+                except OSError:  # The (non-blocking) connection attempt failed, was reset, or timed out: ConnectionRefusedError, ConnectionResetError, BrokenPipeError, TimeoutError, or a plain OSError such as EHOSTUNREACH / ENETUNREACH.
                     out.d("Socket error.", write_now=True)
                     _close_socket(socket_dict, s)
                     continue
